@@ -40,17 +40,18 @@ BAD_RESPINS = ["0", 1.0, None, "x", [0]]
 BAD_FINAL = ["yes", 1, None, 0]
 BAD_RELEASE_VERSIONS = ["1.\u00b2", "7.\u0663", "1.", "1..2", "", "1a", "1-2", None, 5, "1\n", "1.2.", "1 ", "1.x"]
 BAD_RELEASE_TYPES = ["GA", "unknown", "", None, "updates_testing", "ga ", 5, "ga\n"]
-BAD_TEXT = [None, 5, ["x"]]
+# b"..." : wrong type AND not encodable as JSON - an unvalidated copy would only fail inside the encoder, after the open
+BAD_TEXT = [None, 5, ["x"], b"bytes"]
 BAD_BOOL = ["yes", 1, None, 0, "False"]
 BAD_VARIANT_TYPES = ["Variant", "addons", "", None, "layered", "variant "]
-BAD_NAMES = ["", None, 5]
+BAD_NAMES = ["", None, 5, b"bytes"]
 BAD_VARIANT_IDS = ["a-b", "", "a b", None, 5, "a\n", "a.b", "é"]
-BAD_INTS = ["1", 1.5, None, [1]]
-BAD_IMAGE_TYPES = ["DVD", "unknown", None, "", "dvd ", 5]
+BAD_INTS = ["1", 1.5, None, [1], b"1"]
+BAD_IMAGE_TYPES = ["DVD", "unknown", None, "", "dvd ", 5, b"dvd"]
 BAD_IMAGE_FORMATS = ["ISO", "zip", None, "", "iso ", 5]
 BAD_CHECKSUMS = [{}, None, [], "sha256:abc", 5]
 BAD_IMPLANT = ["abc", "A" * 32, "!" * 32, "a" * 31, "a" * 33, "a" * 32 + "\n", 5, "", "0123456789abcdef0123456789abcdeF", " " + "a" * 31]
-BAD_VOLUME_IDS = ["", 5, ["x"]]
+BAD_VOLUME_IDS = ["", 5, ["x"], b"Fedora-22"]
 BAD_TREE_VERSIONS = ["1.", "1..2", "1a", None, 5, "1-2", "1.2."]
 
 
@@ -207,7 +208,7 @@ SLOTS += [
 # ---- images --------------------------------------------------------------------
 SLOTS += compose_slots("images", lambda im: im.compose)
 SLOTS += [
-    attr_slot("images", "image.path", _images, "path", ["", None, 5], backs=["images.Image._validate_path"]),
+    attr_slot("images", "image.path", _images, "path", ["", None, 5, b"a/b.iso"], backs=["images.Image._validate_path"]),
     attr_slot("images", "image.mtime", _images, "mtime", BAD_INTS, backs=["images.Image._validate_mtime"]),
     attr_slot("images", "image.size", _images, "size", BAD_INTS, backs=["images.Image._validate_size"]),
     attr_slot("images", "image.volume_id", _images, "volume_id", BAD_VOLUME_IDS, backs=["images.Image._validate_volume_id"]),
@@ -288,4 +289,6 @@ def slot(fmt, name):
 def json_value(v):
     if isinstance(v, (set, frozenset)):
         return {"__set__": sorted(v)}
+    if isinstance(v, bytes):
+        return {"__bytes__": v.decode("latin1")}
     return v
